@@ -250,6 +250,10 @@ func Orchestrate(cfg OrchConfig) int {
 				cmd.Stdout = ef
 				cmd.Stderr = ef
 				cmd.Env = append(os.Environ(), "GOTRACEBACK=all")
+				if fl == "race" {
+					// reports go to a log per child and do not end the child: all of them are collected, then judged by the parent
+					cmd.Env = append(cmd.Env, "GORACE=halt_on_error=0 exitcode=0 log_path="+filepath.Join(logDir, fmt.Sprintf("racelog-%d", i)))
+				}
 				if fl == "cover" {
 					cd := filepath.Join(logDir, "covdata")
 					os.MkdirAll(cd, 0o755)
@@ -302,6 +306,40 @@ func Orchestrate(cfg OrchConfig) int {
 		v := Violation{Prop: p.ID, Sig: sig, Group: open, Case: lastCase, Desc: map[string]string{"stderr": r.errPath, "first": fatal}, Flavour: r.flavour, Seed: cfg.Seed, Tier: cfg.Tier}
 		m.violBy[sig]++
 		m.witnesses[sig] = append(m.witnesses[sig], v)
+	}
+
+	raceBlocks, raceDistinct, harnessRaces := 0, 0, 0
+	for _, fl := range flavours {
+		if fl != "race" {
+			continue
+		}
+		files, _ := filepath.Glob(filepath.Join(logDir, "racelog-*"))
+		sort.Strings(files)
+		seenSig := map[string]bool{}
+		for _, f := range files {
+			for _, rr := range parseRaceLog(f) {
+				raceBlocks++
+				if rr.sig == "" {
+					harnessRaces++
+					fmt.Fprintf(os.Stderr, "race report without a gorgonia.org/tensor frame (harness or runtime), see %s:\n%s\n", f, rr.head)
+					continue
+				}
+				sig := rr.sig + "@race"
+				if !seenSig[sig] {
+					seenSig[sig] = true
+					raceDistinct++
+				}
+				m.violBy[sig]++
+				if len(m.witnesses[sig]) < maxWitnessPerSig {
+					m.witnesses[sig] = append(m.witnesses[sig], Violation{Prop: p.ID, Sig: sig, Group: "", Case: "race-report", Desc: map[string]string{"log": f, "report": rr.head}, Flavour: "race", Seed: cfg.Seed, Tier: cfg.Tier})
+				}
+			}
+		}
+		m.extra["race_report_blocks"] += raceBlocks
+		m.extra["race_report_distinct"] += raceDistinct
+		if harnessRaces > 0 {
+			broken = true
+		}
 	}
 
 	known, err := LoadKnown(filepath.Join(cfg.VerifDir, "known_findings.json"))
@@ -495,4 +533,83 @@ func functionCoverage(dir, verifDir, id string) (map[string]interface{}, error) 
 	}
 	return map[string]interface{}{"functions_entered": hit, "functions_total": total, "per_file": per,
 		"unreached_list": "evidence/" + id + ".unreached.txt", "unreached": len(unreached)}, nil
+}
+
+
+type raceReport struct {
+	sig  string // "" when no stack of the report has a gorgonia.org/tensor frame
+	head string
+}
+
+// parseRaceLog splits a race detector log into report blocks and names each by the outermost and innermost
+// gorgonia.org/tensor functions of the two conflicting accesses (line numbers and addresses dropped, pair sorted).
+func parseRaceLog(path string) []raceReport {
+	b, err := os.ReadFile(path)
+	if err != nil {
+		return nil
+	}
+	var out []raceReport
+	for _, blk := range strings.Split(string(b), "==================") {
+		if !strings.Contains(blk, "WARNING: DATA RACE") {
+			continue
+		}
+		lines := strings.Split(blk, "\n")
+		var stacks [][]string
+		var cur []string
+		in := false
+		for _, l := range lines {
+			tl := strings.TrimSpace(l)
+			isAccess := strings.HasPrefix(tl, "Write at") || strings.HasPrefix(tl, "Read at") || strings.HasPrefix(tl, "Previous write at") || strings.HasPrefix(tl, "Previous read at") ||
+				strings.HasPrefix(tl, "Atomic") || strings.HasPrefix(tl, "Previous atomic")
+			switch {
+			case isAccess:
+				if in {
+					stacks = append(stacks, cur)
+				}
+				cur, in = nil, true
+			case in && tl == "":
+				stacks = append(stacks, cur)
+				cur, in = nil, false
+			case in && strings.HasPrefix(l, "  ") && !strings.HasPrefix(l, "      "):
+				fn := tl
+				if i := strings.Index(fn, "("); i > 0 && strings.HasSuffix(fn, ")") && !strings.HasPrefix(fn, "(") {
+					// drop the argument list "f(...)" but keep receivers "pkg.(*T).m"
+					if j := strings.LastIndex(fn, "("); j > 0 && !strings.HasPrefix(fn[j:], "(*") {
+						fn = fn[:j]
+					}
+				}
+				cur = append(cur, fn)
+			}
+		}
+		if in {
+			stacks = append(stacks, cur)
+		}
+		var names []string
+		for _, st := range stacks {
+			inner, outer := "", ""
+			for _, fn := range st {
+				if strings.HasPrefix(fn, "gorgonia.org/tensor") {
+					short := strings.TrimPrefix(strings.TrimPrefix(fn, "gorgonia.org/tensor/"), "gorgonia.org/tensor.")
+					if inner == "" {
+						inner = short
+					}
+					outer = short
+				}
+			}
+			if inner != "" {
+				names = append(names, outer+">"+inner)
+			}
+		}
+		head := strings.TrimSpace(blk)
+		if len(head) > 1800 {
+			head = head[:1800]
+		}
+		if len(names) == 0 {
+			out = append(out, raceReport{"", head})
+			continue
+		}
+		sort.Strings(names)
+		out = append(out, raceReport{Sig(append([]string{"race"}, names...)...), head})
+	}
+	return out
 }
